@@ -4,7 +4,7 @@
 # one line per property.
 TIER=${1:-quick}
 shift
-cd /verif 2>/dev/null || cd "$(dirname "$0")/.."
+cd "$(dirname "$0")/.."
 mkdir -p work
 IDS="$@"
 [ -z "$IDS" ] && IDS=$(python3 -c "import json;print(' '.join(c['property_id'] for c in json.load(open('MANIFEST.json'))['checks']))")
